@@ -16,7 +16,7 @@ from concurrent.futures import ThreadPoolExecutor
 
 VERIF = os.path.dirname(os.path.dirname(os.path.abspath(__file__)))
 REPO = os.environ.get("VERIF_REPO", "/repo")
-BUILD = os.path.join(VERIF, ".build")
+BUILD = os.path.join(os.environ.get("VERIF_SCRATCH") or VERIF, ".build")
 GUARD = "CHAISCRIPT_VERIF"
 
 UBSAN_OFF = "signed-integer-overflow,shift,float-cast-overflow,float-divide-by-zero"
